@@ -108,6 +108,18 @@ def gen_plan(prop, tier, rng, i):
             "recording": None, "tzform": rng.choice(["utc", "utc", "naive", "+0530", "-0800"]),
             # time zone of the process that builds the handler (naive bounds mean UTC whatever it is)
             "proc_tz": rng.choice([None, None, "XYZ5", "ABC-05:30", "EST5EDT,M3.2.0,M11.1.0"])}
+    if i % 5 == 4:
+        # thread tier: the thread that replays existing files (dispatch without window test, as
+        # DigitalRFMirror.start() does on the caller's thread) runs concurrently with the observer thread that
+        # delivers live events to the same handler object; a seeded baton decides every switch between them
+        replay = []
+        for _ in range(rng.randrange(3, 8)):
+            ms = (wstart if wstart is not None else BASE * 1000) + rng.choice([-5000, -1000, -1, 0, 500, 7000, 70000])
+            nm = rng.choice(["rf@%d.%03d.h5" % (ms // 1000, ms % 1000), "metadata@%d.h5" % (ms // 1000)])
+            replay.append("ch0/%s/%s" % (SUBDIRS[0], nm))
+        plan["threads"] = {"seed": rng.randrange(2**32), "p_switch": rng.choice([0.05, 0.2, 0.5]), "replay": replay,
+                           "live": [e for e in events if e["k"] in ("created", "modified", "deleted", "moved")
+                                    and not e.get("untimed")][:rng.randrange(6, 16)]}
     if i % 3 == 0:
         cfg = M.gen_cfg(rng, {"maxcap": 100})
         t = 0
@@ -375,6 +387,8 @@ def run_plan(prop, plan):
                                 [(g[0], os.path.relpath(g[1], root)) for g in exp], flags, plan["wstart"], plan["wend"]),
                             kind=k, tmp=bool(tmpish))
         res.nontrivial = res.probes.get("accepted_created", 0) + res.probes.get("move_to_matching_is_creation", 0) > 0
+        if plan.get("threads"):
+            _run_threads(plan, res, root, h, calls, oracle)
         res.stats["distinct_paths_judged_by_listing"] = len(oracle.cache)
         return res
     finally:
@@ -388,6 +402,127 @@ def run_plan(prop, plan):
             _time.tzset()
         if not os.environ.get("VSIM_KEEP"):
             shutil.rmtree(sc, ignore_errors=True)
+
+
+def _run_threads(plan, res, root, h, calls, oracle):
+    """two real threads on ONE handler object under a baton scheduler; pre-emption points are the line events of
+    watchdog_drf.py.  The filter is stateless by contract, so every dispatch has the same schedule-independent
+    expectation as in the sequential part."""
+    import sys
+    import threading
+
+    from watchdog import events as we
+
+    from .evsim16 import Baton, StepCap
+
+    th = plan["threads"]
+    mk = {"created": we.FileCreatedEvent, "modified": we.FileModifiedEvent, "deleted": we.FileDeletedEvent}
+
+    def expect(ev, timed):
+        src = os.path.join(root, ev["src"])
+        if ev["k"] == "moved":
+            dst = os.path.join(root, ev["dst"])
+            a_s, a_d = oracle.accepted(ev["src"], timed), oracle.accepted(ev["dst"], timed)
+            if a_s and a_d:
+                return [("moved", src, dst)]
+            if a_d:
+                return [("created", dst, None)]
+            if a_s:
+                return [("deleted", src, None)]
+            return []
+        return [(ev["k"], src, None)] if oracle.accepted(ev["src"], timed) else []
+
+    # expectations are computed before the threads start (the listing oracle is not part of the schedule)
+    jobs = {"replay": [({"k": "created", "src": p_}, False) for p_ in th["replay"]],
+            "live": [(e, True) for e in th["live"]]}
+    exps = {t: [expect(e, timed) for e, timed in lst] for t, lst in jobs.items()}
+    baton = Baton(th["seed"], th["p_switch"], cap=400000)
+    tids, per_thread, errors = {}, {"replay": [], "live": []}, []
+
+    class _NoLock:
+        owner = None
+
+    nolock = _NoLock()
+
+    def tracer_for(tid):
+        def local(frame, event, arg):
+            if event == "line":
+                baton.yield_point(tid, "L%d" % frame.f_lineno, nolock)
+            return local
+
+        def glob(frame, event, arg):
+            if frame.f_code.co_filename.endswith("watchdog_drf.py"):
+                return local
+            return None
+        return glob
+
+    def body(tid):
+        tids[threading.get_ident()] = tid
+        try:
+            baton.wait_turn(tid)
+            sys.settrace(tracer_for(tid))
+            try:
+                for (ev, timed) in jobs[tid]:
+                    src = os.path.join(root, ev["src"])
+                    e = we.FileMovedEvent(src, os.path.join(root, ev["dst"])) if ev["k"] == "moved" else mk[ev["k"]](src)
+                    mine = []
+                    cur[threading.get_ident()] = mine
+                    if timed:
+                        h.dispatch(e)
+                    else:
+                        h.dispatch(e, match_time=False)
+                    per_thread[tid].append(list(mine))
+            finally:
+                sys.settrace(None)
+        except StepCap as e:
+            errors.append("step cap: %s" % e)
+        except Exception as e:  # noqa
+            errors.append("%s: %s" % (type(e).__name__, e))
+        finally:
+            baton.finish(tid)
+
+    # route the recording handler's calls to the dispatching thread's list
+    cur = {}
+
+    class _Router(list):
+        def append(self, item):  # noqa
+            cur[threading.get_ident()].append(item)
+
+    saved = calls[:]
+    router = _Router()
+    # the Rec handler closes over the name `calls`: swap the list's behaviour by monkeypatching its class is not
+    # possible for a plain list, so the handler methods are re-bound here
+    for name, kind in (("on_created", "created"), ("on_deleted", "deleted"), ("on_modified", "modified"),
+                       ("on_closed", "closed"), ("on_opened", "opened")):
+        setattr(h, name, (lambda k_: (lambda e_: router.append((k_, e_.src_path, None))))(kind))
+    h.on_moved = lambda e_: router.append(("moved", e_.src_path, e_.dest_path))
+    baton.register(["live", "replay"])
+    ts = [threading.Thread(target=body, args=(t,), daemon=True) for t in ("replay", "live")]
+    for t in ts:
+        t.start()
+    for t in ts:
+        t.join(60)
+    if any(t.is_alive() for t in ts):
+        baton.failed = "deadlock"
+        with baton.cv:
+            baton.cv.notify_all()
+        raise K.HarnessError("C15 thread tier: threads did not finish")
+    if errors:
+        res.violate("C15", "dispatch_raises", "[threads] %s" % errors[0])
+        return
+    res.fault("thread_switch", baton.switches)
+    res.stats["thread_steps"] = res.stats.get("thread_steps", 0) + baton.steps
+    res.probe("thread_tier")
+    for tid in ("replay", "live"):
+        for (ev, timed), got, exp in zip(jobs[tid], per_thread[tid], exps[tid]):
+            if got != exp:
+                kind = ("spurious" if got and not exp else "missed" if exp and not got else "wrong_kind")
+                res.violate("C15", "filter_disagrees_" + kind,
+                            "[threads, %s thread, %d switches] event %s(%s)%s: handler called %s, listing-based expectation %s" % (
+                                tid, baton.switches, ev["k"], ev["src"], "" if timed else " dispatched without window test",
+                                [(g[0], os.path.relpath(g[1], root)) for g in got],
+                                [(g[0], os.path.relpath(g[1], root)) for g in exp]), kind=ev["k"], threads=True)
+                return
 
 
 COMPONENTS = {
